@@ -38,6 +38,7 @@ const (
 	rawFromObj  = 0 // proof bytes = json.Marshal(obj)
 	rawBroken   = 1 // proof bytes carry no usable proof (nil, garbage, truncated JSON)
 	rawReencode = 2 // proof bytes are another JSON rendering of obj
+	rawFuzz     = 3 // byte-level mutation of a JSON proof: the runner re-parses it (unparseable = broken)
 )
 
 type caseSpec struct {
@@ -554,7 +555,7 @@ func allKinds() []kind {
 			c.obj.StorageProof[0].Key = hexutil.Encode(crypto.Keccak256(common.FromHex(c.obj.StorageProof[0].Key)))
 			return c
 		}},
-		{"key/index-207", func(g *gen) *caseSpec {
+		{"key/junk-slot-holding-claimed-value", func(g *gen) *caseSpec {
 			// the value sits in a slot derived with another mapping index; the claim's real slot is unwritten
 			// (uses the forged-free approach: claim absent packet, prove a junk slot) – only when junk exists
 			if len(g.w.junk) == 0 {
@@ -827,6 +828,41 @@ func allKinds() []kind {
 		}},
 	}
 
+	// byte-level fuzzing of the JSON
+	for i := 0; i < 4; i++ {
+		ks = append(ks,
+			kind{"fuzz/true-claim", func(g *gen) *caseSpec {
+				c := g.trueBase("")
+				bz, _ := json.Marshal(c.obj)
+				c.raw, c.rawClass, c.obj = fuzzBytes(g.rng, bz), rawFuzz, nil
+				return c
+			}},
+			kind{"fuzz/false-value", func(g *gen) *caseSpec {
+				c := g.trueBase("")
+				c.claim.commitment = gen32(g.rng)
+				bz, _ := json.Marshal(c.obj)
+				c.raw, c.rawClass, c.obj = fuzzBytes(g.rng, bz), rawFuzz, nil
+				return c
+			}},
+			kind{"fuzz/false-absent", func(g *gen) *caseSpec {
+				c := g.honestCase("", g.okState(), ref{p: g.w.absent, ack: g.rng.Intn(2) == 0})
+				bz, _ := json.Marshal(c.obj)
+				c.raw, c.rawClass, c.obj = fuzzBytes(g.rng, bz), rawFuzz, nil
+				return c
+			}},
+			kind{"fuzz/false-height", func(g *gen) *caseSpec {
+				st := stNotPassed
+				if g.rng.Intn(2) == 0 {
+					st = stAboveHead
+				}
+				c := g.honestCase("", st, g.pickTrue(st))
+				bz, _ := json.Marshal(c.obj)
+				c.raw, c.rawClass, c.obj = fuzzBytes(g.rng, bz), rawFuzz, nil
+				return c
+			}},
+		)
+	}
+
 	// account-proof and storage-proof node mutations
 	for _, lm := range listMuts {
 		lm := lm
@@ -887,4 +923,29 @@ func allKinds() []kind {
 		}},
 	)
 	return ks
+}
+
+// fuzzBytes applies 1..3 byte-level edits.
+func fuzzBytes(rng *rand.Rand, in []byte) []byte {
+	b := append([]byte{}, in...)
+	for n := 1 + rng.Intn(3); n > 0 && len(b) > 0; n-- {
+		i := rng.Intn(len(b))
+		switch rng.Intn(5) {
+		case 0:
+			b[i] ^= 1 << uint(rng.Intn(8))
+		case 1:
+			b[i] = byte(rng.Intn(256))
+		case 2:
+			b = append(b[:i], b[i+1:]...)
+		case 3:
+			b = append(b[:i], append([]byte{"0123456789abcdefx\",:[]{}"[rng.Intn(24)]}, b[i:]...)...)
+		default:
+			j := i + rng.Intn(40)
+			if j > len(b) {
+				j = len(b)
+			}
+			b = append(b[:j], append(append([]byte{}, b[i:j]...), b[j:]...)...)
+		}
+	}
+	return b
 }
